@@ -175,6 +175,7 @@ int main (void)
     simmpi_opts o; simmpi_report rep;
     simmpi_opts_default (&o);
     o.nranks = a.P; o.seed = seed; o.adversary = adv; o.trace_path = want_trace ? tpath : NULL;
+    fprintf (stderr, "CASE %d\n", run); fflush (stderr);   /* lets the check attribute a sanitizer report to its case */
     int rc = simmpi_run (&o, rank_main, &a, &rep);
     sc_notify_eager_threshold_default = saved_thr;
     printf ("RUN %d rc=%d steps=%ld\n", run, rc, rep.steps);
